@@ -33,10 +33,11 @@ const (
 	KReturn
 	KRunEntry
 	KRunBody
+	KNotify
 )
 
 func (k Kind) String() string {
-	return [...]string{"top", "visit", "cancel", "return", "runentry", "runbody"}[k]
+	return [...]string{"top", "visit", "cancel", "return", "runentry", "runbody", "notify"}[k]
 }
 
 type OutcomeKind int
@@ -58,7 +59,9 @@ type Parked struct {
 	Kind  Kind
 	Job   *JobH
 	Stage string
-	ch    chan Outcome
+	// for KNotify: the status about to be notified is "error" (otherwise "done")
+	Err bool
+	ch  chan Outcome
 }
 
 // JobH is the harness' view of one job
@@ -123,6 +126,17 @@ func New() *H {
 			h.park(KReturn, j, "")
 		}
 	}
+	taskctl.VerifHooks.Notify = func(s *taskctl.Scheduler, st *scheduler.Stage) {
+		// the notifications of a stage goroutine after Run returned ("error", "done"); the "running" notification of the
+		// scheduling loop stays part of the visit event
+		status := st.ReadStatus()
+		if status == scheduler.StatusRunning {
+			return
+		}
+		if j := h.jobOf(s); j != nil {
+			h.parkP(&Parked{Kind: KNotify, Job: j, Stage: st.Name, Err: status == scheduler.StatusError, ch: make(chan Outcome)})
+		}
+	}
 	return h
 }
 
@@ -132,6 +146,7 @@ func (h *H) Close() {
 	taskctl.VerifHooks.Visit = nil
 	taskctl.VerifHooks.Cancel = nil
 	taskctl.VerifHooks.Return = nil
+	taskctl.VerifHooks.Notify = nil
 }
 
 func (h *H) jobOf(s *taskctl.Scheduler) *JobH {
@@ -141,7 +156,10 @@ func (h *H) jobOf(s *taskctl.Scheduler) *JobH {
 }
 
 func (h *H) park(k Kind, j *JobH, stage string) Outcome {
-	p := &Parked{Kind: k, Job: j, Stage: stage, ch: make(chan Outcome)}
+	return h.parkP(&Parked{Kind: k, Job: j, Stage: stage, ch: make(chan Outcome)})
+}
+
+func (h *H) parkP(p *Parked) Outcome {
 	h.mu.Lock()
 	h.parked = append(h.parked, p)
 	h.mu.Unlock()
@@ -369,7 +387,7 @@ func (h *H) Quiesce(timeout time.Duration, extraOK ...string) error {
 			good := false
 			if blockedState(state) {
 				switch {
-				case strings.Contains(body, "control.(*H).park("):
+				case strings.Contains(body, "control.(*H).parkP("):
 					good = strings.HasPrefix(state, "chan receive")
 				case strings.Contains(body, "(*CtlRunner).waitRuns("):
 					good = true
